@@ -355,6 +355,48 @@ fn lut4_all_times_pool(run: &Run) {
     });
 }
 
+/// Both operands are the SAME object (pointer-identical references): `&a op &a`, `a.op(&a)`.
+fn aliased<L: Tab>(run: &Run, st: bool, n: usize) {
+    let fam: Vec<TT> = if n <= 4 { (0..(1u64 << nbits(n))).map(|x| TT::from_u64(n, x)).collect() } else { alpha::family_capped(n, run.seed, 1, 3000) };
+    let complete = n <= 4;
+    run.section(&format!("ALIASED operands n={} {}: a.op(&a), &a op &a, a op= &a.clone()", n, L::tname(n)), complete, "the two operands are the same object; every table of n<=4, the alphabet above", fam.len() as u64, 16, |r, l| {
+        for k in r {
+            let t = &fam[k as usize];
+            l.states += 1;
+            let res = guarded(|| {
+                let a: L = mk_tt(t);
+                let out = [a.t_and(&a), a.t_or(&a), a.t_xor(&a), alias_ops::<L>(&a, BinOp::And), alias_ops::<L>(&a, BinOp::Or), alias_ops::<L>(&a, BinOp::Xor)];
+                (out, a)
+            });
+            l.transitions += 6;
+            l.validated += 6;
+            match res {
+                Err(p) => report(l, st, n, &t.w, &t.w, Some(BinOp::Xor), 5, ("aliased operator forms return".into(), p)),
+                Ok((out, a)) => {
+                    let zero = TT::zero(n);
+                    let want = [t, t, &zero, t, t, &zero];
+                    let names = [(BinOp::And, 0), (BinOp::Or, 0), (BinOp::Xor, 0), (BinOp::And, 5), (BinOp::Or, 5), (BinOp::Xor, 5)];
+                    for i in 0..6 {
+                        if let Err(v) = same_function(&format!("{} with both operands the same object", BINARY_FORMS[names[i].1].replace("op", names[i].0.name())), &out[i], want[i]) {
+                            report(l, st, n, &t.w, &t.w, Some(names[i].0), names[i].1, v);
+                        }
+                    }
+                    if a.t_blocks() != &t.w[..] {
+                        report(l, st, n, &t.w, &t.w, Some(BinOp::And), 5, ("the aliased operand is left unchanged".into(), show(&a)));
+                    }
+                    l.nontrivial += 1;
+                    l.digest ^= crate::engine::mix3(hash_words(&t.w), n as u64, 99);
+                }
+            }
+        }
+    });
+}
+
+fn alias_ops<L: Tab>(a: &L, op: BinOp) -> L {
+    // the reference/reference operator form with pointer-identical operands
+    L::t_alias_form(op, a)
+}
+
 pub fn run(run: &Run) {
     run.set_rule("state = ordered pair (a,b) of n-variable tables (per type); transition = one of the 28 syntactic operator forms; non-trivial = a != b and neither operand constant zero");
     run.assume("reference model: pointwise Boolean function of the operands' value() observed before the call (model::tt)");
@@ -374,6 +416,15 @@ pub fn run(run: &Run) {
         sweep_pairs4_static(run);
         sweep_pairs4_dynamic(run);
         lut4_all_times_pool(run);
+    }
+    fn al<L: Tab>(run: &Run, st: bool, n: usize) {
+        aliased::<L>(run, st, n)
+    }
+    for n in 0..=14usize {
+        al::<volute::Lut>(run, false, n);
+        if n <= 12 {
+            for_static!(n, al(run, true, n));
+        }
     }
     let sizes: Vec<usize> = (4..=14).collect();
     for n in sizes {
